@@ -131,7 +131,7 @@ void h_find(void) { HAYSTACK(5); NEEDLE_V(3);
   VF_KNOWN(C08_find_tail_overread, w_find_tail(hay_in, hn, en, enn, ep));
    unsigned long r = CALL_V(find); SEARCH_CHECK(r, r_find, T_FIND); }
 
-/*@GROUP name=find_fwd props=C08,C02,C05 kind=B unwind=5 unwindset=r_find.0:8,r_rfind.0:8,r_ffo.0:8,r_ffno.0:8,r_flo.0:8,r_flno.0:8,r_cmp.0:8,r_mismatch.0:8,w_find_tail.0:8,r_match.0:5,r_in.0:5,r_strlen.0:5 bound=haystack<=3,needle<=2 cost=3 when=VF_CT==0@*/
+/*@GROUP name=find_fwd props=C08,C02,C05 kind=B unwind=5 unwindset=r_find.0:8,r_rfind.0:8,r_ffo.0:8,r_ffno.0:8,r_flo.0:8,r_flno.0:8,r_cmp.0:8,r_mismatch.0:8,w_find_tail.0:8,r_match.0:5,r_in.0:5,r_strlen.0:5 bound=haystack<=3,needle<=2 cost=3 when=VF_CT<=1@*/
 void h_find_fwd(void) { HAYSTACK(3); NEEDLE_FWD(2, 0UL);
   __CPROVER_assume(enn >= 1); /* domain split: the empty needle is group find_empty */
   VF_KNOWN(C08_find_tail_overread, w_find_tail(hay_in, hn, en, enn, ep));
@@ -143,7 +143,7 @@ void h_find_ch(void) { HAYSTACK(5); NEEDLE_C(0UL);  unsigned long r = CALL_C(fin
 /*@GROUP name=rfind props=C08,C02 kind=B unwind=6 unwindset=r_find.0:8,r_rfind.0:8,r_ffo.0:8,r_ffno.0:8,r_flo.0:8,r_flno.0:8,r_cmp.0:8,r_mismatch.0:8,w_find_tail.0:8,r_match.0:5,r_in.0:5,r_strlen.0:5 bound=haystack<=4,needle<=2 cost=3 when=VF_CT==0@*/
 void h_rfind(void) { HAYSTACK(4); NEEDLE_V(2); unsigned long r = CALL_V(rfind); SEARCH_CHECK(r, r_rfind, T_RFIND); }
 
-/*@GROUP name=rfind_fwd props=C08,C02 kind=B unwind=5 unwindset=r_find.0:8,r_rfind.0:8,r_ffo.0:8,r_ffno.0:8,r_flo.0:8,r_flno.0:8,r_cmp.0:8,r_mismatch.0:8,w_find_tail.0:8,r_match.0:5,r_in.0:5,r_strlen.0:5 bound=haystack<=3,needle<=2 cost=3 when=VF_CT==0@*/
+/*@GROUP name=rfind_fwd props=C08,C02 kind=B unwind=5 unwindset=r_find.0:8,r_rfind.0:8,r_ffo.0:8,r_ffno.0:8,r_flo.0:8,r_flno.0:8,r_cmp.0:8,r_mismatch.0:8,w_find_tail.0:8,r_match.0:5,r_in.0:5,r_strlen.0:5 bound=haystack<=3,needle<=2 cost=3 when=VF_CT<=1@*/
 #undef OVSEL
 #define OVSEL(ov) ((ov) <= 1)
 void h_rfind_fwd(void) { HAYSTACK(3); NEEDLE_FWD(2, NPOS); unsigned long r = CALL_FWD(rfind); SEARCH_CHECK(r, r_rfind, T_RFIND); }
@@ -159,7 +159,7 @@ void h_rfind_ch(void) { HAYSTACK(5); NEEDLE_C(NPOS); unsigned long r = CALL_C(rf
 /*@GROUP name=first_of props=C08,C02 kind=B unwind=7 unwindset=r_find.0:8,r_rfind.0:8,r_ffo.0:8,r_ffno.0:8,r_flo.0:8,r_flno.0:8,r_cmp.0:8,r_mismatch.0:8,w_find_tail.0:8,r_match.0:5,r_in.0:5,r_strlen.0:5 bound=haystack<=5,needle<=3 cost=3 when=VF_CT==0@*/
 void h_first_of(void) { HAYSTACK(5); NEEDLE_V(3); unsigned long r = CALL_V(find_first_of); SEARCH_CHECK(r, r_ffo, T_FFO); }
 
-/*@GROUP name=first_of_fwd props=C08,C02 kind=B unwind=5 unwindset=r_find.0:8,r_rfind.0:8,r_ffo.0:8,r_ffno.0:8,r_flo.0:8,r_flno.0:8,r_cmp.0:8,r_mismatch.0:8,w_find_tail.0:8,r_match.0:5,r_in.0:5,r_strlen.0:5 bound=haystack<=3,needle<=2 cost=3 when=VF_CT==0@*/
+/*@GROUP name=first_of_fwd props=C08,C02 kind=B unwind=5 unwindset=r_find.0:8,r_rfind.0:8,r_ffo.0:8,r_ffno.0:8,r_flo.0:8,r_flno.0:8,r_cmp.0:8,r_mismatch.0:8,w_find_tail.0:8,r_match.0:5,r_in.0:5,r_strlen.0:5 bound=haystack<=3,needle<=2 cost=3 when=VF_CT<=1@*/
 void h_first_of_fwd(void) { HAYSTACK(3); NEEDLE_FWD(2, 0UL); unsigned long r = CALL_FWD(find_first_of); SEARCH_CHECK(r, r_ffo, T_FFO); }
 
 /*@GROUP name=first_of_ch props=C08,C02 kind=B unwind=7 unwindset=r_find.0:8,r_rfind.0:8,r_ffo.0:8,r_ffno.0:8,r_flo.0:8,r_flno.0:8,r_cmp.0:8,r_mismatch.0:8,w_find_tail.0:8,r_match.0:5,r_in.0:5,r_strlen.0:5 bound=haystack<=5 cost=1 when=VF_CT==0@*/
@@ -170,7 +170,7 @@ void h_last_of(void) { HAYSTACK(5); NEEDLE_V(3);
   __CPROVER_assume(hn >= 1); /* domain split: the empty view is in groups last_of_empty / last_not_of_empty */
    unsigned long r = CALL_V(find_last_of); SEARCH_CHECK(r, r_flo, T_FLO); }
 
-/*@GROUP name=last_of_fwd props=C08,C02 kind=B unwind=5 unwindset=r_find.0:8,r_rfind.0:8,r_ffo.0:8,r_ffno.0:8,r_flo.0:8,r_flno.0:8,r_cmp.0:8,r_mismatch.0:8,w_find_tail.0:8,r_match.0:5,r_in.0:5,r_strlen.0:5 bound=haystack<=3,needle<=2 cost=3 when=VF_CT==0@*/
+/*@GROUP name=last_of_fwd props=C08,C02 kind=B unwind=5 unwindset=r_find.0:8,r_rfind.0:8,r_ffo.0:8,r_ffno.0:8,r_flo.0:8,r_flno.0:8,r_cmp.0:8,r_mismatch.0:8,w_find_tail.0:8,r_match.0:5,r_in.0:5,r_strlen.0:5 bound=haystack<=3,needle<=2 cost=3 when=VF_CT<=1@*/
 void h_last_of_fwd(void) { HAYSTACK(3); NEEDLE_FWD(2, NPOS);
   __CPROVER_assume(hn >= 1); /* domain split: the empty view is in groups last_of_empty / last_not_of_empty */
    unsigned long r = CALL_FWD(find_last_of); SEARCH_CHECK(r, r_flo, T_FLO); }
@@ -183,7 +183,7 @@ void h_last_of_ch(void) { HAYSTACK(5); NEEDLE_C(NPOS);
 /*@GROUP name=first_not_of props=C08,C02 kind=B unwind=7 unwindset=r_find.0:8,r_rfind.0:8,r_ffo.0:8,r_ffno.0:8,r_flo.0:8,r_flno.0:8,r_cmp.0:8,r_mismatch.0:8,w_find_tail.0:8,r_match.0:5,r_in.0:5,r_strlen.0:5 bound=haystack<=5,needle<=3 cost=3 when=VF_CT==0@*/
 void h_first_not_of(void) { HAYSTACK(5); NEEDLE_V(3); unsigned long r = CALL_V(find_first_not_of); SEARCH_CHECK(r, r_ffno, T_FFNO); }
 
-/*@GROUP name=first_not_of_fwd props=C08,C02 kind=B unwind=5 unwindset=r_find.0:8,r_rfind.0:8,r_ffo.0:8,r_ffno.0:8,r_flo.0:8,r_flno.0:8,r_cmp.0:8,r_mismatch.0:8,w_find_tail.0:8,r_match.0:5,r_in.0:5,r_strlen.0:5 bound=haystack<=3,needle<=2 cost=3 when=VF_CT==0@*/
+/*@GROUP name=first_not_of_fwd props=C08,C02 kind=B unwind=5 unwindset=r_find.0:8,r_rfind.0:8,r_ffo.0:8,r_ffno.0:8,r_flo.0:8,r_flno.0:8,r_cmp.0:8,r_mismatch.0:8,w_find_tail.0:8,r_match.0:5,r_in.0:5,r_strlen.0:5 bound=haystack<=3,needle<=2 cost=3 when=VF_CT<=1@*/
 void h_first_not_of_fwd(void) { HAYSTACK(3); NEEDLE_FWD(2, 0UL); unsigned long r = CALL_FWD(find_first_not_of); SEARCH_CHECK(r, r_ffno, T_FFNO); }
 
 /*@GROUP name=first_not_of_ch props=C08,C02 kind=B unwind=7 unwindset=r_find.0:8,r_rfind.0:8,r_ffo.0:8,r_ffno.0:8,r_flo.0:8,r_flno.0:8,r_cmp.0:8,r_mismatch.0:8,w_find_tail.0:8,r_match.0:5,r_in.0:5,r_strlen.0:5 bound=haystack<=5 cost=1@*/
@@ -194,7 +194,7 @@ void h_last_not_of(void) { HAYSTACK(5); NEEDLE_V(3);
   __CPROVER_assume(hn >= 1); /* domain split: the empty view is in groups last_of_empty / last_not_of_empty */
    unsigned long r = CALL_V(find_last_not_of); SEARCH_CHECK(r, r_flno, T_FLNO); }
 
-/*@GROUP name=last_not_of_fwd props=C08,C02 kind=B unwind=5 unwindset=r_find.0:8,r_rfind.0:8,r_ffo.0:8,r_ffno.0:8,r_flo.0:8,r_flno.0:8,r_cmp.0:8,r_mismatch.0:8,w_find_tail.0:8,r_match.0:5,r_in.0:5,r_strlen.0:5 bound=haystack<=3,needle<=2 cost=3 when=VF_CT==0@*/
+/*@GROUP name=last_not_of_fwd props=C08,C02 kind=B unwind=5 unwindset=r_find.0:8,r_rfind.0:8,r_ffo.0:8,r_ffno.0:8,r_flo.0:8,r_flno.0:8,r_cmp.0:8,r_mismatch.0:8,w_find_tail.0:8,r_match.0:5,r_in.0:5,r_strlen.0:5 bound=haystack<=3,needle<=2 cost=3 when=VF_CT<=1@*/
 void h_last_not_of_fwd(void) { HAYSTACK(3); NEEDLE_FWD(2, NPOS);
   __CPROVER_assume(hn >= 1); /* domain split: the empty view is in groups last_of_empty / last_not_of_empty */
    unsigned long r = CALL_FWD(find_last_not_of); SEARCH_CHECK(r, r_flno, T_FLNO); }
@@ -558,3 +558,19 @@ void h_u_find(void) { SV *th; SV v; unsigned long pos; vf_k = nondet_ulong(); sv
 /* rfind(view,pos): needle of <= 1 character (the empty one included), unbounded haystack, any pos: find_end / search under loop contracts */
 /*@GROUP name=u_rfind props=C08,C02 kind=U mode=contract enforce=sv_rfind_v_real loops=1 standin=rfind cost=3 when=VF_CT==0@*/
 void h_u_rfind(void) { SV *th; SV v; unsigned long pos; vf_k = nondet_ulong(); sv_rfind_v_real(th, v, pos); VF_REACH(); }
+
+/*@COMMON@*/
+/* ---- two views into the SAME buffer (overlapping, nested, sharing their begin or their end): results depend on the characters only */
+#define ALIAS_SETUP(MAXN) VF_INPUT(unsigned char, n); __CPROVER_assume(n <= (MAXN)); VF_BUF(CH, p, n, MAXN); \
+  VF_INPUT(unsigned char, i); VF_INPUT(unsigned char, la); VF_INPUT(unsigned char, j); VF_INPUT(unsigned char, lb); VF_INPUT(unsigned long, pos); \
+  __CPROVER_assume(i <= n && la <= n - i && j <= n && lb <= n - j); SV_VIEW(a, p + i, la); SV_VIEW(b, p + j, lb); const CH *ra = p_in + i, *rb = p_in + j
+/*@GROUP name=alias_affix props=C08,C02,C05 kind=B unwind=7 unwindset=r_cmp.0:8,r_mismatch.0:8 bound=buffer<=4 cost=2 when=VF_CT==0@*/
+void h_alias_affix(void) { ALIAS_SETUP(4); unsigned long m = r_mismatch(ra, la, rb, lb);
+  VF_ASSERT(sv_starts_with_v(&a, &b) == (lb <= la && m >= lb), "starts_with(view into the same buffer)");
+  { _Bool e = lb <= la; if (e) for (int k = 0; k < 4; ++k) if (k < lb && ra[la - lb + k] != rb[k]) e = 0; VF_ASSERT(sv_ends_with_v(&a, &b) == e, "ends_with(view into the same buffer): by characters, not by address"); }
+  VF_ASSERT(SGN(sv_compare_v(&a, &b)) == r_cmp(ra, la, rb, lb), "compare(view into the same buffer)");
+  VF_ASSERT(sv_eq(&a, &b) == (la == lb && m >= la), "operator==(views into the same buffer)");
+  VF_ASSERT(sv_lt(&a, &b) == (r_cmp(ra, la, rb, lb) < 0), "operator<(views into the same buffer)");
+  VF_REACH(); }
+/* find/rfind/contains with overlapping views of one buffer ran out of memory in CBMC (symbolic offsets into one object inside the
+ * nested search loops); the affix/compare forms above are the ones that compare ADDRESSES in plausible shortcuts. */
